@@ -227,6 +227,47 @@ theorem xinv_step (full guarded : Bool) (hfg : full = true → guarded = true) (
         exact deliver_inv σ.H r _ d now st evs (hinv.repInv hf r hmem) (hinv.deltaOK hf d hd) dnd dpos
           (hguard (hfg hf)) happ
       · exact hinv.repInv hf x hx
+  | catchup i j s d hs hd =>
+    have hms : s ∈ σ.replicas := List.mem_of_getElem? hs
+    have hmd : d ∈ σ.replicas := List.mem_of_getElem? hd
+    refine ⟨hinv.ownerFull, hinv.ownerWF, hinv.ownerInv, ?_, ?_, ?_, hinv.deltaWF, hinv.deltaOKW, hinv.deltaOK⟩
+    · intro x hx
+      rcases mem_set_cases hx with hx | hx
+      · subst hx
+        exact wfCopy_catchupCopy σ.H d s (hinv.repWF s hms) (hinv.repWF d hmd) (hinv.repInvW s hms) (hinv.repInvW d hmd)
+      · exact hinv.repWF x hx
+    · intro x hx
+      rcases mem_set_cases hx with hx | hx
+      · subst hx
+        rw [absCopy_catchupCopy d s (hinv.repWF s hms) (hinv.repWF d hmd)]
+        exact Ledger.catchupAbs_invW σ.H _ _ (hinv.repInvW d hmd) (hinv.repInvW s hms)
+      · exact hinv.repInvW x hx
+    · intro hf x hx
+      rcases mem_set_cases hx with hx | hx
+      · subst hx
+        rw [absCopy_catchupCopy d s (hinv.repWF s hms) (hinv.repWF d hmd)]
+        exact Ledger.catchupAbs_inv σ.H _ _ (hinv.repInv hf d hmd) (hinv.repInv hf s hms)
+      · exact hinv.repInv hf x hx
+  | catchupFromOwner j d hd =>
+    have hmd : d ∈ σ.replicas := List.mem_of_getElem? hd
+    refine ⟨hinv.ownerFull, hinv.ownerWF, hinv.ownerInv, ?_, ?_, ?_, hinv.deltaWF, hinv.deltaOKW, hinv.deltaOK⟩
+    · intro x hx
+      rcases mem_set_cases hx with hx | hx
+      · subst hx
+        exact wfCopy_catchupCopy σ.H d σ.owner hinv.ownerWF (hinv.repWF d hmd) hinv.ownerInv.toInvW (hinv.repInvW d hmd)
+      · exact hinv.repWF x hx
+    · intro x hx
+      rcases mem_set_cases hx with hx | hx
+      · subst hx
+        rw [absCopy_catchupCopy d σ.owner hinv.ownerWF (hinv.repWF d hmd)]
+        exact Ledger.catchupAbs_invW σ.H _ _ (hinv.repInvW d hmd) hinv.ownerInv.toInvW
+      · exact hinv.repInvW x hx
+    · intro hf x hx
+      rcases mem_set_cases hx with hx | hx
+      · subst hx
+        rw [absCopy_catchupCopy d σ.owner hinv.ownerWF (hinv.repWF d hmd)]
+        exact Ledger.catchupAbs_inv σ.H _ _ (hinv.repInv hf d hmd) hinv.ownerInv
+      · exact hinv.repInv hf x hx
   | deliverToOwner d hd now o' st evs happ =>
     -- the owner refuses every delta about itself: nothing is ahead of it
     have hok := hinv.deltaOKW d hd
